@@ -976,13 +976,15 @@ impl Transaction {
             return false;
         }
 
+        let value_inputs = self.from.iter().filter(|slip| slip.amount > 0).count();
         if self
             .from
             .iter()
+            .filter(|slip| slip.amount > 0)
             .map(|slip| slip.utxoset_key)
-            .collect::<Vec<_>>()
+            .collect::<AHashSet<_>>()
             .len()
-            != self.from.len()
+            != value_inputs
         {
             error!("ERROR: transaction : {} has duplicate inputs", self);
             return false;
